@@ -9,6 +9,8 @@ def outcomeLine : Outcome → String
   | .panic site => "PANIC " ++ esc site
   | .unsupported why => "UNSUPPORTED " ++ esc why
 
+/-- the lines answered for one input: the outcome, preceded by `FLAG id COLLISION` when names collide in the parsed input
+    (the zone outside which `C16_derive_panics_only_at_todo_without_collision` leaves one panic site) -/
 def handle (b : Back) (line : String) : Option String :=
   match line.splitOn " " with
   | "IN" :: id :: rest =>
@@ -21,9 +23,12 @@ def handle (b : Back) (line : String) : Option String :=
         match decodeInput ts with
         | none => some ("MOD " ++ id ++ " BADINPUT")
         | some inp =>
-          -- the hypothesis of C16_validated_only_findings, tested on every parsed input
+          -- the hypotheses of C16_validated_only_findings / C16_validated_no_collision_only_todo, tested on every parsed input
           match parseInput b inp with
-          | some dt => if dt.pathsWF then some ("MOD " ++ id ++ " " ++ outcomeLine (derive b inp)) else some ("MOD " ++ id ++ " WFVIOLATION")
+          | some dt =>
+            if dt.pathsWF && (dt.shapeWF || !inp.shapeWF) then
+              some ((if dt.noKeyCollision then "" else "FLAG " ++ id ++ " COLLISION\n") ++ "MOD " ++ id ++ " " ++ outcomeLine (derive b inp))
+            else some ("MOD " ++ id ++ " WFVIOLATION")
           | none => some ("MOD " ++ id ++ " " ++ outcomeLine (derive b inp))
   | _ => none
 
